@@ -28,6 +28,9 @@ Proof. exact ends_correct. Qed.
 Theorem C06_fullmatch_is_whole : forall r s, fullmatch r s = true <-> matches_whole r s.
 Proof. exact fullmatch_correct. Qed.
 
+Theorem C06_search_is_somewhere : forall r s, search r s = true <-> matches_somewhere r s.
+Proof. exact search_correct. Qed.
+
 (* What the code does (wrap each text, compile, ship, compile again, search, last match wins, default
    opposite of the first kind, root included) is the documented rule evaluated with a whole-path
    match of each pattern's own AST. *)
@@ -52,6 +55,9 @@ Proof. exact shipped_set_works. Qed.
 Theorem C06_listed_iff : forall inc t q,
   In q (walk inc [] t) <-> exists anc, In (q, anc) (entries [] [] t) /\ inc q = true /\ forallb inc anc = true.
 Proof. exact listed_iff. Qed.
+Theorem C06_walk_is_filter : forall inc t,
+  walk inc [] t = map fst (filter (survives inc) (entries [] [] t)).
+Proof. intros inc t. exact (walk_spec inc t [] [] eq_refl). Qed.
 (* ... so an excluded folder hides everything beneath it ... *)
 Theorem C06_hidden : forall inc t q, In q (walk inc [] t) ->
   forall anc d, In (q, anc) (entries [] [] t) -> In d anc ->
@@ -68,6 +74,12 @@ Proof. exact same_on_both_trees. Qed.
 Theorem C06_old_wrap_escapes :
   parse (wrap_old ["a"; "|"; "b"]) = Some (Alt (cats [Bol; lit false "a"]) (cats [lit false "b"; Eol])).
 Proof. exact old_wrap_escapes. Qed.
+
+Theorem C06_old_wrap_refuted :
+  let fs := [["-"; "a"; "|"; "b"]] in let p := ["a"; "b"] in
+  old_verdict fs p = Ok Exc /\ model_verdict fs p = Ok Inc /\
+  exists asts, map own_ast fs = map Some asts /\ spec_verdict asts p = Inc.
+Proof. exact old_wrap_refuted. Qed.
 
 (* Non-vacuity: the F1 witness. "-build|dist": builder.txt takes part, build and dist do not. *)
 Definition s (x : String.string) : str := String.list_ascii_of_string x.
